@@ -515,6 +515,13 @@ class Engine:
         act = _Activation(self, u, fname, out, depth=0)
         act.run(u.body(fname), st)
         self.npaths += len(out)
+        # a path that runs back to the head of an OUTER loop after having passed an inner one: the loop it belongs to (the
+        # one whose iteration it is) is listed last, as for every other back edge - readers take loops[-1] for "the loop
+        # this iteration is of"
+        for p in out:
+            if p.end == 'loopback' and p.loops and p.loops[-1][0] is not p.node and any(nd is p.node for nd, _ in p.loops):
+                own = [x for x in p.loops if x[0] is p.node][-1]
+                p.loops = [x for x in p.loops if x is not own] + [own]
         if self.restore_invariants:
             self._restore_invariants(out)
         if self.index_pointer_walks:
